@@ -38,6 +38,8 @@ def h_submit(tier):
         _ob("H-submit/time", H, "h_submit", dict(shapes=["mid3", "chain3"], bss=[1], maxns=[None, 1], time_based=True,
                                                   fails=False), **_HO),
         _ob("H-submit/G2", H, "h_submit", dict(shapes=["chain3"], bss=[1, 2], maxns=[None], G=2, fails=False), **_HO),
+        _ob("H-submit/states", H, "h_submit", dict(shapes=["indep3", "chain3"], bss=[1], maxns=[1, 2], fails=False, cancel_flags=False,
+                                                    aliases=["RUNNING", "SUSPENDED", "CONFIGURING"]), **_HO),
         _ob("H-submit/local", H, "h_submit", dict(shapes=["chain3", "join3", "fork3"], bss=[3], maxns=[None], local=True,
                                                    procs=2), **_HO),
     ]
@@ -126,7 +128,9 @@ def c15(tier):
 
 def c14(tier):
     q = [_ob("H-cancel", "harness.h_cancel", "h_cancel", dict(shapes=["indep3", "chain3", "fork3"], maxns=[1, 2], followups=1,
-                                                             complete_flag=[True, False]), **_HO)]
+                                                             complete_flag=[True, False]), **_HO),
+         _ob("H-cancel/time", "harness.h_cancel", "h_cancel", dict(shapes=["indep3", "chain3"], maxns=[1], followups=1,
+                                                                  complete_flag=[True], time_based=[True]), **_HO)]
     if tier == "quick":
         return q
     return q + [_ob("H-cancel/wide", "harness.h_cancel", "h_cancel", dict(shapes=["indep3", "chain3", "join3"], maxns=[1, None],
